@@ -271,4 +271,8 @@ def edif_dangling(text):
             out.append(("dangling:portref", i + 1, join_edif(toks[:i + 1] + ["zz_undeclared"] + toks[i + 2:])))
         elif tl == "member" and toks[i + 1] not in "()":
             out.append(("dangling:member", i + 1, join_edif(toks[:i + 1] + ["zz_undeclared"] + toks[i + 2:])))
+            if i + 2 < len(toks) and re.fullmatch(r"\d+", toks[i + 2]):
+                # a bit that the port does not have: beyond its width, or counted from the wrong end
+                out.append(("dangling:member-index-beyond-width", i + 2, join_edif(toks[:i + 2] + ["999"] + toks[i + 3:])))
+                out.append(("dangling:member-index-negative", i + 2, join_edif(toks[:i + 2] + ["-1"] + toks[i + 3:])))
     return out
